@@ -1,4 +1,5 @@
 import Norad.Model.C18
+import Norad.Model.DSCodec
 import Norad.Spec.C18
 /-!
 # C18 — helper lemmas (codec laws, trimming, dictionary insertion, the plist glue by mutual induction)
@@ -7,22 +8,25 @@ namespace C18
 open C18.Spec
 
 /-- what the theorems assume of `std`/`base64`/`plist` formatting: shortest-round-trip `Display`/`FromStr`
-    for non-NaN floats, decimal integers, base64, RFC 3339 dates; none of the produced strings starts or
-    ends with an XML blank, a number has no inner blank.  Hypotheses, never axioms; the driver checks them
-    on every string the harness reports (`codec-law-broken`). -/
+    for non-NaN floats, decimal integers, base64, RFC 3339 dates; every produced string consists of
+    printable ASCII characters other than the blank (`safeChar`), a float string is not empty, an integer
+    string does not start with `0x`.  Hypotheses, never axioms.  `codecLaws_refCodec` (Props) shows they are
+    satisfiable, with the integer and base64 parts discharged for the implementations the driver runs; the
+    driver checks them on every string the harness reports (`codec-law-broken`). -/
 structure CodecLaws (c : Codec) : Prop where
   f32_rt : ∀ x, x.notNaN = true → c.readF32 (c.showF32 x) = some x
-  f32_word : ∀ x, (c.showF32 x).toList ≠ [] ∧ ' ' ∉ (c.showF32 x).toList
+  f32_ne : ∀ x, (c.showF32 x).toList ≠ []
+  f32_safe : ∀ x, (c.showF32 x).toList.all safeChar = true
   f64_rt : ∀ x, x.notNaN = true → c.readF64 (c.showF64 x) = some x
-  f64_clean : ∀ x, trimXml (c.showF64 x) = c.showF64 x
+  f64_safe : ∀ x, (c.showF64 x).toList.all safeChar = true
   int_i64 : ∀ i, i64Min ≤ i → i ≤ i64Max → c.parseI64 (c.showInt i) = some i
   int_u64 : ∀ i, i64Max < i → i ≤ u64Max → c.parseI64 (c.showInt i) = none ∧ c.parseU64 (c.showInt i) = some i
-  int_no0x : ∀ i, (c.showInt i).startsWith "0x" = false
-  int_clean : ∀ i, trimXml (c.showInt i) = c.showInt i
+  int_no0x : ∀ i, hasPrefix0x (c.showInt i) = false
+  int_safe : ∀ i, (c.showInt i).toList.all safeChar = true
   data_rt : ∀ d, c.decData (c.encData d) = some d
-  data_clean : ∀ d, trimXml (c.encData d) = c.encData d
+  data_safe : ∀ d, (c.encData d).toList.all safeChar = true
   date_rt : ∀ d s, c.showDate d = some s → c.readDate s = some d
-  date_clean : ∀ d s, c.showDate d = some s → trimXml s = s
+  date_safe : ∀ d s, c.showDate d = some s → s.toList.all safeChar = true
 
 /-! ## trimming -/
 
@@ -56,6 +60,43 @@ theorem trimXml_of_edgeClean (s : String) (h : edgeClean s = true) : trimXml s =
   rw [this]; simp
 
 theorem trimXml_empty : trimXml "" = "" := by decide
+
+theorem safeChar_not_blank (ch : Char) (h : safeChar ch = true) : isXmlBlank ch = false := by
+  simp only [safeChar, Bool.and_eq_true, decide_eq_true_eq] at h
+  simp only [isXmlBlank, Bool.or_eq_false_iff, beq_eq_false_iff_ne]
+  refine ⟨⟨⟨?_, ?_⟩, ?_⟩, ?_⟩ <;> (intro e; subst e; revert h; decide)
+
+theorem trimXml_of_safe (s : String) (h : s.toList.all safeChar = true) : trimXml s = s := by
+  apply trimXml_of_edgeClean
+  unfold edgeClean
+  cases hs : s.toList with
+  | nil => rfl
+  | cons ch r =>
+    rw [hs] at h
+    simp only [List.all_eq_true] at h
+    have h1 := safeChar_not_blank ch (h ch (by simp))
+    have hl : (ch :: r).getLast?.getD ch ∈ ch :: r := by
+      cases hg : (ch :: r).getLast? with
+      | none => simp
+      | some x => simpa using List.mem_of_getLast? hg
+    have h2 := safeChar_not_blank _ (h _ hl)
+    simp [h1, h2]
+
+namespace CodecLaws
+variable {c : Codec} (L : CodecLaws c)
+include L
+theorem f64_clean (x : F64) : trimXml (c.showF64 x) = c.showF64 x := trimXml_of_safe _ (L.f64_safe x)
+theorem int_clean (i : Int) : trimXml (c.showInt i) = c.showInt i := trimXml_of_safe _ (L.int_safe i)
+theorem data_clean (d : List UInt8) : trimXml (c.encData d) = c.encData d := trimXml_of_safe _ (L.data_safe d)
+theorem date_clean (d : Date) (s : String) (h : c.showDate d = some s) : trimXml s = s :=
+  trimXml_of_safe _ (L.date_safe d s h)
+theorem f32_word (x : F32) : (c.showF32 x).toList ≠ [] ∧ ' ' ∉ (c.showF32 x).toList := by
+  refine ⟨L.f32_ne x, fun hm => ?_⟩
+  have := L.f32_safe x
+  simp only [List.all_eq_true] at this
+  have := this ' ' hm
+  revert this; decide
+end CodecLaws
 
 /-- the writer's text content read back through quick-xml: trimmed -/
 theorem elemText_content (s : String) :
